@@ -17,6 +17,8 @@ class C17(Prop):
         "NV.C17.never_stale",
         "NV.C17.never_stale_transitive",
         "NV.C17.fresh_binary_used",
+        "NV.C17.saved_only_against_current_parents",
+        "NV.C17.current_parents_are_saved",
         "NV.C17.swap_loop_correct",
         "NV.C17.perm_sort_correct",
         "NV.C17.remap_points_at_same_function",
@@ -45,6 +47,7 @@ class C17(Prop):
         "NV.C17.old_config_id_blind",
         "NV.C17.old_indirect_inherit_not_checked",
         "NV.C17.conditional_patch_list_misses_switch",
+        "NV.C17.old_saved_against_outdated_parent",
     ]
     consts = [("switchCaseSize", "SWITCH_CASE_SIZE"), ("fSwitch", "F_SWITCH"), ("nameInherited", "NAME_INHERITED"),
               ("indexStartNone", "INDEX_START_NONE"), ("sizeofProgram", "sizeof(program_t)"),
